@@ -29,6 +29,7 @@ type screenCfg struct {
 	headers     []string // --header lines
 	headerLines []string // first N input lines
 	prompt      string
+	noSeparator bool // --no-separator
 }
 
 var infoRe = regexp.MustCompile(`(\d+)/(\d+)(?: \((\d+)(?:/\d+)?\))?`)
@@ -202,7 +203,7 @@ func checkScreen(rawRows []string, rawSt *Status, cfg screenCfg) (string, bool) 
 			t := strings.TrimLeft(r, " ")
 			if cfg.info == "right" {
 				t = strings.TrimLeft(r, " -")
-				if m := infoRe.FindStringSubmatch(t); m == nil || strings.TrimSpace(t) != m[0] || !strings.Contains(r, "-") && cfg.width >= 30 {
+				if m := infoRe.FindStringSubmatch(t); m == nil || strings.TrimSpace(t) != m[0] || !strings.Contains(r, "-") && cfg.width >= 30 && !cfg.noSeparator {
 					continue
 				}
 			}
@@ -413,6 +414,10 @@ func c15Session(t *rapid.T) {
 	args := []string{"--no-mouse", "--no-scrollbar", "--no-unicode", "--pointer", ">", "--marker", "*", "--ellipsis", "..", "--prompt", cfg.prompt, "--layout=" + cfg.layout, "--info=" + cfg.info, "--color=bw"}
 	if rapid.IntRange(0, 2).Draw(t, "hscroll") != 0 {
 		args = append(args, "--no-hscroll")
+	}
+	if rapid.IntRange(0, 2).Draw(t, "noSeparator") == 0 {
+		cfg.noSeparator = true
+		args = append(args, "--no-separator")
 	}
 	if cfg.multi {
 		args = append(args, "--multi")
